@@ -101,6 +101,8 @@ func TestC17(t *testing.T) {
 		{"zero", time.Time{}}, {"T", t0}, {"T@+5", t0.In(zone)}, {"T+1h", t0.Add(time.Hour)}, {"T-1h", t0.Add(-time.Hour)}, {"T+1h@+5", t0.Add(time.Hour).In(zone)},
 		// an instant before the zero one (what "0001-01-01T00:00:00+01:00" decodes to): the zero instant is the later of the two
 		{"zero-1h", time.Time{}.Add(-time.Hour)},
+		// and one later than any calendar a wire format can write: nil still ranks before the object that carries it
+		{"year12000", time.Date(12000, 1, 1, 0, 0, 0, 0, time.UTC)},
 	}
 	// identity policies: distinct ids over all Go types; one id and one type for all (versions of one object, so that
 	// identity-based equality holds between items with different instants); no ids at all
